@@ -361,6 +361,18 @@ impl World {
             let mut e = group("c24t12", wu(0x30c), &[users[2]]);
             e.add_ava(Attribute::Class, EntryClass::PosixGroup.to_value());
             add(&mut txn, e, wu(0x30c), "posix-group");
+            for (k, sys, u) in [("schema-class-system", true, wu(0x30d)), ("schema-class-plain", false, wu(0x30e))] {
+                let mut e: NewE = Entry::new();
+                e.add_ava(Attribute::Class, EntryClass::Object.to_value());
+                e.add_ava(Attribute::Class, EntryClass::ClassType.to_value());
+                if sys {
+                    e.add_ava(Attribute::Class, EntryClass::System.to_value());
+                }
+                e.add_ava(Attribute::ClassName, Value::new_iutf8(if sys { "c24classsys" } else { "c24classplain" }));
+                e.add_ava(Attribute::Description, Value::new_utf8s("c24 class"));
+                e.add_ava(Attribute::Uuid, Value::Uuid(u));
+                add(&mut txn, e, u, k);
+            }
             txn.commit().expect("commit3");
         }
         {
@@ -382,19 +394,6 @@ impl World {
             (UUID_IDM_ALL_PERSONS, "builtin-dyngroup"),
         ] {
             targets.push((u, k));
-        }
-        {
-            let mut txn = qs.write(t1 + Duration::from_secs(15)).await.expect("schema lookup");
-            for (c, k) in [(EntryClass::ClassType, "schema-class"), (EntryClass::AttributeType, "schema-attr")] {
-                let f = Filter::new(f_eq(Attribute::Class, c.into()));
-                if let Ok(v) = txn.internal_search(f) {
-                    let mut us: Vec<Uuid> = v.iter().map(|e| e.get_uuid()).collect();
-                    us.sort();
-                    if let Some(u) = us.get(rng.below(us.len().max(1) as u64) as usize) {
-                        targets.push((*u, k));
-                    }
-                }
-            }
         }
         for (i, u) in users.iter().enumerate() {
             if i < 2 {
